@@ -265,6 +265,10 @@ def items(tier):
         for prior in PRIORS:
             out.append({"kind": "corrupt", "nv": nv, "prior": prior})
             out.append({"kind": "crash", "nv": nv, "prior": prior})
+    # the same from a sub-directory of the project (a reported failure must still leave nothing behind, a valid archive must restore)
+    for nv in (1, 2):
+        for prior in ("empty", "holds-unrelated", "holds-recorded-same"):
+            out.append({"kind": "corrupt", "nv": nv, "prior": prior, "cwd": "src/deep"})
     # archives holding several versions of one task, and a large archive (300 versions)
     for prior in ("empty", "holds-unrelated", "holds-recorded-same", "holds-unrecorded-dir"):
         out.append({"kind": "corrupt", "nv": "2same", "prior": prior})
@@ -424,10 +428,12 @@ def run_item(item, tier):
             with open(arch, "wb") as f:
                 f.write(cdata)
             res["evals"] += 1
+            if item.get("cwd"):
+                os.makedirs(os.path.join(root, item["cwd"]), exist_ok=True)
             with _quiet():
-                r = hist.run(root, ["restore", arch])
+                r = hist.run(root, ["restore", arch], cwd=item.get("cwd") or ".")
             success = (r.exit == 0 and r.exc is None)
-            art = {"kind": "corrupt", "nv": item["nv"], "prior": item["prior"], "corruption": cname}
+            art = {"kind": "corrupt", "nv": item["nv"], "prior": item["prior"], "corruption": cname, "cwd": item.get("cwd")}
             if cname != "none" or item["prior"] != "empty":
                 res["sigs"].add(explore.sig([item["nv"], item["prior"], cname]))
             k = "restore_succeeded" if success else "restore_failed"
@@ -522,5 +528,5 @@ def _crash(item, tier, data, arows, adirs, other, res, viol):
 
 def replay(artefact):
     r = run_item({"kind": artefact["kind"], "nv": artefact["nv"], "prior": artefact["prior"], "chunk": artefact.get("chunk", 0),
-                  "only_intact": artefact["nv"] == "big"}, "quick")
+                  "only_intact": artefact["nv"] == "big", "cwd": artefact.get("cwd")}, "quick")
     return [(v["key"], v["what"]) for v in r["violations"]]
